@@ -119,7 +119,10 @@ def cross_correlation_shift(
     vy = cc_real[x0, y_inds]
 
     def parabolic_peak(v):
-        return (v[2] - v[0]) / (4 * v[1] - 2 * v[2] - 2 * v[0])
+        # a flat triple has no curvature to refine on (e.g. an axis of length 1, where the three
+        # samples are the same pixel): no offset, as in align_images_fourier_torch
+        denom = 4 * v[1] - 2 * v[2] - 2 * v[0]
+        return (v[2] - v[0]) / denom if denom != 0 else 0.0
 
     dx = parabolic_peak(vx)
     dy = parabolic_peak(vy)
